@@ -213,6 +213,8 @@ template <class T>
 IMATH_HOSTDEVICE IMATH_CONSTEXPR14 inline bool
 Interval<T>::intersects (const Interval<T>& interval) const IMATH_NOEXCEPT
 {
+    if (isEmpty () || interval.isEmpty ()) return false;
+
     return interval.max >= min && interval.min <= max;
 }
 
